@@ -15,18 +15,19 @@ import (
 
 type inputReader struct {
 	io.Reader
-	rs  io.ReadSeeker
-	buf *bytes.Buffer
+	rs    io.ReadSeeker
+	buf   *bytes.Buffer
+	start int64 // the position of rs where the input starts
 }
 
 func newInputReader(r io.Reader) *inputReader {
 	if r, ok := r.(io.ReadSeeker); ok {
-		if _, err := r.Seek(0, io.SeekCurrent); err == nil {
-			return &inputReader{r, r, nil}
+		if start, err := r.Seek(0, io.SeekCurrent); err == nil {
+			return &inputReader{r, r, nil, start}
 		}
 	}
 	var buf bytes.Buffer // do not use strings.Builder because we need to Reset
-	return &inputReader{io.TeeReader(r, &buf), nil, &buf}
+	return &inputReader{io.TeeReader(r, &buf), nil, &buf, 0}
 }
 
 // countNewlines counts the line terminators LF, CRLF and CR (ref: stringScanner).
@@ -42,7 +43,7 @@ func (ir *inputReader) getContents(offset *int64, line *int) string {
 	if current, err := ir.rs.Seek(0, io.SeekCurrent); err == nil {
 		defer ir.rs.Seek(current, io.SeekStart)
 	}
-	_, _ = ir.rs.Seek(0, io.SeekStart)
+	_, _ = ir.rs.Seek(ir.start, io.SeekStart)
 	const bufSize = 16 * 1024
 	var buf bytes.Buffer // do not use strings.Builder because we need to Reset
 	for offset != nil && *offset > bufSize*3/4 {
@@ -111,6 +112,7 @@ func (i *jsonInputIter) Next() (any, bool) {
 			offset, line = &e.Offset, &i.line
 		} else if err == io.ErrUnexpectedEOF && i.ir.rs != nil {
 			if pos, err := i.ir.rs.Seek(0, io.SeekEnd); err == nil {
+				pos -= i.ir.start
 				offset, line = &pos, &i.line
 			}
 		}
